@@ -143,6 +143,27 @@ theorem resend_keeps_timestamp (s : Option Int) (gen : Option (Unit → Int)) :
 
 example : executeFrames (some (-5)) (some fun _ => 1700000000000000) true = [some (-5), some (-5)] := by decide
 
+/-- The same for BATCH, for ANY number of rounds of the re-prepare loop: every frame of a batch with an explicit
+timestamp carries it; without one, every frame carries the one value drawn before the loop (the generator is asked
+exactly once per call, so a re-sent batch never gets a fresh — larger — timestamp). -/
+theorem batch_timestamp_on_every_frame (b : Option Int) (gen : Option (Unit → Int)) (resends : Nat) :
+    (batchFrames b gen resends).length = resends + 1 ∧
+    (∀ f ∈ batchFrames b gen resends, f = pickTimestamp b gen) ∧
+    (∀ t, b = some t → ∀ f ∈ batchFrames b gen resends, f = some t) := by
+  refine ⟨by simp [batchFrames], ?_, ?_⟩
+  · intro f hf
+    exact (List.mem_replicate.mp hf).2
+  · intro t ht f hf
+    rw [(List.mem_replicate.mp hf).2, ht]
+    rfl
+
+/-- … and for QUERY (one frame). -/
+theorem query_timestamp (s : Option Int) (gen : Option (Unit → Int)) :
+    queryFrames s gen = [pickTimestamp s gen] ∧ (∀ t, s = some t → queryFrames s gen = [some t]) :=
+  ⟨rfl, by intro t ht; rw [ht]; rfl⟩
+
+example : batchFrames none (some fun _ => 17) 3 = [some 17, some 17, some 17, some 17] := by decide
+
 /-- Sequential runs under any scripted clock (what the correspondence check observes on one thread):
 strictly increasing from the starting value. -/
 theorem seqRun_increasing (n : Nat) (last : Int) (script : List (Option Nat)) (le : Option Nat) :
